@@ -93,6 +93,8 @@ class Profile:
     break_continue: bool = True
     float_literals: bool = True
     special_literals: bool = True  # nil / empty / blank
+    nil_literal: bool = True
+    grouped_operands: bool = False  # (a or b) == c
     big_ints: bool = False
     offset_continue: bool = True
     in_partial: str = ""  # "render": generating a body that may be rendered (include is forbidden there)
@@ -189,7 +191,7 @@ class Gen:
         if c < 0.90:
             return {"k": self.pick(["true", "false"])}
         if c < 0.94 and self.p.special_literals:
-            return {"k": self.pick(["nil", "empty", "blank"])}
+            return {"k": self.pick(["nil", "empty", "blank"] if self.p.nil_literal else ["empty", "blank"])}
         if self.p.ranges:
             return self.rangelit()
         return self.path()
@@ -198,7 +200,7 @@ class Gen:
         """A primitive usable as a filter/tag argument (empty/blank are not)."""
         e = self.primitive(kinds)
         if e["k"] in ("empty", "blank"):
-            return {"k": "nil"}
+            return {"k": "nil"} if self.p.nil_literal else {"k": "true"}
         return e
 
     def rangelit(self) -> dict:
@@ -250,7 +252,14 @@ class Gen:
 
     def comparison(self) -> dict:
         op = self.pick(["==", "!=", "<>", "<", ">", "<=", ">=", "contains"])
-        return {"k": "cmp", "op": op, "l": self.primitive(), "r": self.primitive()}
+        l, rr = self.primitive(), self.primitive()
+        if self.p.grouped_operands and self.p.parens and self.chance(0.15):
+            grp = {"k": "group", "e": self.boolean(1)}
+            if self.chance(0.5):
+                l = grp
+            else:
+                rr = grp
+        return {"k": "cmp", "op": op, "l": l, "r": rr}
 
     def boolean(self, depth: int = 2) -> dict:
         c = self.r.random()
@@ -548,7 +557,7 @@ def bool_src(b: Any) -> str:
     if k == "group":
         return f"({bool_src(b['e'])})"
     if k == "cmp":
-        return f"{expr_src(b['l'])} {b['op']} {expr_src(b['r'])}"
+        return f"{bool_src(b['l'])} {b['op']} {bool_src(b['r'])}"
     return expr_src(b)
 
 
